@@ -328,6 +328,27 @@ pub fn starknet_db() -> RootDatabase {
     db
 }
 
+/// Compiles ALL contracts of a project directory with one `compile_prepared_db` call inside a rayon pool of
+/// `threads` threads, in a fresh database. Returns "contract path => hash of the class JSON" lines in the
+/// order of the returned vector (the caller pairs the i-th class with the i-th contract).
+pub fn classes_by_pool(path: &Path, threads: usize) -> Result<Vec<String>, String> {
+    let pool = rayon::ThreadPoolBuilder::new().num_threads(threads).build().map_err(|e| e.to_string())?;
+    pool.install(|| {
+        let mut db = starknet_db();
+        let inputs = setup_project(&mut db, path).map_err(|e| format!("{e}"))?;
+        let reporter = cairo_lang_compiler::diagnostics::DiagnosticsReporter::ignoring().with_crates(&inputs).allow_warnings();
+        let ids = CrateInput::into_crate_ids(&db, inputs);
+        let contracts = find_contracts(&db, &ids);
+        let refs: Vec<_> = contracts.iter().collect();
+        let classes = compile_prepared_db(&db, &refs, CompilerConfig { replace_ids: true, diagnostics_reporter: reporter, ..Default::default() }).map_err(|e| format!("{e}"))?;
+        Ok(contracts
+            .iter()
+            .zip(classes)
+            .map(|(c, class)| format!("{} => {:016x}", c.submodule_id.full_path(&db), crate::core::hash_of(&serde_json::to_string(&class).unwrap_or_default())))
+            .collect())
+    })
+}
+
 /// Compiles every contract of a project directory; returns (name, class, in-memory canonical program).
 fn compile_contracts(db: &mut RootDatabase, path: &Path) -> Result<Vec<(String, ContractClass, Option<Program>)>, String> {
     let inputs = setup_project(db, path).map_err(|e| format!("{e}"))?;
